@@ -78,3 +78,21 @@ Definition ex_mode : mode_aut :=
 Example C05_nonvacuous :
   mode_okb ex_mode = true /\ find_mode ex_tbl ex_mode [97; 98; 99]%N = Ok (Some (0%N, 2)).
 Proof. vm_compute. split; reflexivity. Qed.
+
+(* THE ORACLE. The judge of token streams (Spec.check_stream) accepts a token at a position exactly
+   when it is a maximal candidate in the sense of the property: a pattern matches that prefix in full
+   with its lookahead condition satisfied, and no candidate has a larger extent, or the same extent and
+   an earlier pattern. The deterministic specification always delivers such a token. *)
+From Scnr Require Import OracleProofs.
+Theorem C05_oracle_is_the_rule :
+  forall leaf ps s t e,
+  is_max_cand leaf ps s t e = true <->
+  exists x i, SCand leaf ps s x i t e /\
+    forall x' i' t' e', SCand leaf ps s x' i' t' e' -> ~ (x < x' \/ (x' = x /\ i' < i)).
+Proof. exact is_max_cand_spec. Qed.
+Print Assumptions C05_oracle_is_the_rule.
+
+Theorem C05_specification_accepted_by_oracle :
+  forall leaf ps s t e, best_cand leaf ps s = Some (t, e) -> is_max_cand leaf ps s t e = true.
+Proof. exact best_cand_is_max. Qed.
+Print Assumptions C05_specification_accepted_by_oracle.
